@@ -14,7 +14,7 @@ use stun_types::message::{Message, MessageHeader};
 const P: &str = "C17";
 
 pub fn run(ctx: &Ctx) -> Report {
-    let (n_full, n_small) = ctx.tier.pick((3, 4), (4, 5));
+    let (n_full, n_small) = ctx.tier.pick((4, 5), (5, 6));
     let sk = engine_in::skeletons(n_full, n_small);
     let hv = crate::props::c02::header_variants(ctx);
     let acc1 = sk
